@@ -54,7 +54,7 @@ class Ctx:
         self.notes = []       # triaged candidate reports outside the property
 
     def ob(self, rule, clause, func_or_where, node, construct, instance, verdict,
-           detail='', witness=None):
+           detail='', witness=None, role_key=None):
         if isinstance(func_or_where, str):
             where = func_or_where
             key = f'{construct}::{rule}'
@@ -62,7 +62,8 @@ class Ctx:
             f = func_or_where
             ln = getattr(node, 'lineno', f.node.lineno) if node is not None else f.node.lineno
             where = f'{f.module.relpath}:{ln} {f.qualname}'
-            key = f'{f.key}::{construct}::{rule}'
+            key = f'{f.key}::{construct}::{rule}' if role_key is None else \
+                f'{f.module.relpath}::<{role_key}>::{construct}::{rule}'
         o = Ob(rule, clause, where, key, instance, verdict, detail, witness)
         self.obs.append(o)
         return o
@@ -123,9 +124,10 @@ def run(pid, module, tier, root, seed, quiet=False, evidence=True):
     replay_paths = []
     os.makedirs(os.path.join(evdir, 'replay'), exist_ok=True)
     # clear old replay files of this property
-    for fn in os.listdir(os.path.join(evdir, 'replay')):
-        if fn.startswith(pid + '-'):
-            os.remove(os.path.join(evdir, 'replay', fn))
+    if not os.environ.get('DARRLINT_NO_REPLAY'):
+        for fn in os.listdir(os.path.join(evdir, 'replay')):
+            if fn.startswith(pid + '-'):
+                os.remove(os.path.join(evdir, 'replay', fn))
     for o in ctx.obs:
         if o.verdict == VIOLATED and o.construct in open_known:
             o.known = open_known[o.construct]
@@ -137,8 +139,9 @@ def run(pid, module, tier, root, seed, quiet=False, evidence=True):
         elif o.verdict == VIOLATED:
             nviol += 1
             rp = os.path.join(evdir, 'replay', f'{pid}-{nviol}.json')
-            with open(rp, 'w') as fh:
-                json.dump({'property': pid, 'root': root, **o.as_dict()}, fh, indent=1)
+            if not os.environ.get('DARRLINT_NO_REPLAY'):
+                with open(rp, 'w') as fh:
+                    json.dump({'property': pid, 'root': root, **o.as_dict()}, fh, indent=1)
             replay_paths.append(rp)
             lines.append(f'VIOLATION property={pid} replay={rp}')
     for ff in floor_fail:
